@@ -1407,3 +1407,44 @@ Example ex_itraces :
   asserts (imerge ex_ia (imerge ex_ib ex_ic)) = [(2, 0); (4, 1); (5, 2); (8, 3)] /\
   imerge ex_ia ex_ib <> imerge ex_ib ex_ia.
 Proof. repeat split. discriminate. Qed.
+
+(* ================================================================================================ *)
+(* Part 8: execution counts are additive — for ALL traces, in particular for equal ones             *)
+(* ================================================================================================ *)
+Theorem count_of_merge a b k : trace_wf b = true ->
+  count_of (merge a b) k = count_of a k + count_of b k.
+Proof.
+  rewrite trace_wf_spec. intros (_ & _ & _ & N & _ & _). unfold count_of. cbn [exec_pred merge].
+  rewrite (dget_merge_counts _ _ k N).
+  destruct (dget (exec_pred a) k), (dget (exec_pred b) k); lia.
+Qed.
+
+Theorem dmem_merge_counts a b k : trace_wf b = true ->
+  dmem (exec_pred (merge a b)) k = dmem (exec_pred a) k || dmem (exec_pred b) k.
+Proof.
+  rewrite trace_wf_spec. intros (_ & _ & _ & N & _ & _). unfold dmem. cbn [exec_pred merge].
+  rewrite (dget_merge_counts _ _ k N).
+  destruct (dget (exec_pred a) k), (dget (exec_pred b) k); reflexivity.
+Qed.
+
+(* merging a trace with (a copy of) itself doubles every count: nothing is dropped *)
+Theorem count_of_merge_self a k : trace_wf a = true -> count_of (merge a a) k = 2 * count_of a k.
+Proof. intro W. rewrite (count_of_merge a a k W). lia. Qed.
+
+Lemma count_of_fold ts acc k : all_wf ts ->
+  count_of (fold_left merge ts acc) k = count_of acc k + total_count ts k.
+Proof.
+  revert acc. induction ts as [|t ts IH]; intros acc W; simpl; [lia|].
+  inversion W; subst. rewrite (IH _ H2), (count_of_merge acc t k H1). lia.
+Qed.
+
+(* analyze_results: the merged count is the sum of the counts of all results, duplicates included *)
+Theorem count_of_merge_all ts k : all_wf ts -> count_of (merge_all ts) k = total_count ts k.
+Proof. intro W. unfold merge_all. rewrite (count_of_fold ts empty_trace k W). reflexivity. Qed.
+
+Example ex_duplicate_counts :
+  count_of (merge_all [ex_a; ex_a; ex_b]) 1 = 5 /\ count_of (merge_all [ex_a; ex_b; ex_a]) 1 = 5 /\
+  trace_equiv (merge_all [ex_a; ex_a; ex_b]) (merge_all [ex_a; ex_b; ex_a]).
+Proof.
+  split; [reflexivity|split; [reflexivity|]]. apply trace_eqb_equiv. reflexivity.
+Qed.
